@@ -4,6 +4,7 @@ import (
 	"errors"
 	"fmt"
 	"math/rand"
+	"sync"
 
 	"github.com/go-kid/ioc/component_definition"
 	"github.com/go-kid/ioc/container"
@@ -325,7 +326,53 @@ func (d *driver) create(name string) (*component_definition.Meta, error) {
 	}))
 }
 
+// runProgram drives one seeded sequence of top-level operations over the driver's names.
+func (d *driver) runProgram(tr *mon.RegistryTracer) (diverged *mon.Divergence) {
+	rng := d.rng
+	defer func() {
+		if r := recover(); r != nil {
+			if dv, ok := r.(mon.Divergence); ok {
+				diverged = &dv
+				return
+			}
+			panic(r)
+		}
+	}()
+	top := 3 + rng.Intn(8)
+	for i := 0; i < top; i++ {
+		name := d.names[rng.Intn(len(d.names))]
+		switch rng.Intn(6) {
+		case 0:
+			allow := rng.Intn(2) == 0
+			d.log("get(%s,%v)", name, allow)
+			tr.GetSingleton(name, allow)
+		case 1:
+			tr.IsSingletonCurrentlyInCreation(name)
+		case 5:
+			// get-or-create without a preceding lookup (a second caller that missed in its own lookup
+			// before the first one published): allowed by the interface whenever the name is not on the stack
+			d.log("create-direct(%s)", name)
+			d.create(name)
+			tr.IsSingletonCurrentlyInCreation(name)
+		default:
+			d.log("doGet(%s)", name)
+			d.doGet(name)
+		}
+	}
+	// final sweep: every name looked up twice, in-creation queried
+	for _, name := range d.names {
+		tr.GetSingleton(name, true)
+		tr.IsSingletonCurrentlyInCreation(name)
+		tr.GetSingleton(name, false)
+	}
+	return nil
+}
+
 func (p c04) driven(c *core.Ctx) {
+	if c.Index%10 == 7 {
+		p.drivenSideBySide(c)
+		return
+	}
 	inner := support.DefaultSingletonComponentRegistry()
 	tr := mon.NewRegistryTracer(inner, 20000)
 	d := &driver{rng: c.Rng, reg: tr, hasFac: map[string]bool{}, metas: map[string]*component_definition.Meta{}, maxOps: 60}
@@ -333,51 +380,60 @@ func (p c04) driven(c *core.Ctx) {
 	for i := 0; i < nn; i++ {
 		d.names = append(d.names, fmt.Sprintf("n%d", i))
 	}
-	var diverged *mon.Divergence
-	func() {
-		defer func() {
-			if r := recover(); r != nil {
-				if dv, ok := r.(mon.Divergence); ok {
-					diverged = &dv
-					return
-				}
-				panic(r)
-			}
-		}()
-		top := 3 + c.Rng.Intn(8)
-		for i := 0; i < top; i++ {
-			name := d.names[c.Rng.Intn(len(d.names))]
-			switch c.Rng.Intn(6) {
-			case 0:
-				allow := c.Rng.Intn(2) == 0
-				d.log("get(%s,%v)", name, allow)
-				tr.GetSingleton(name, allow)
-			case 1:
-				tr.IsSingletonCurrentlyInCreation(name)
-			case 5:
-				// get-or-create without a preceding lookup (a second caller that missed in its own lookup
-				// before the first one published): allowed by the interface whenever the name is not on the stack
-				d.log("create-direct(%s)", name)
-				d.create(name)
-				tr.IsSingletonCurrentlyInCreation(name)
-			default:
-				d.log("doGet(%s)", name)
-				d.doGet(name)
-			}
-		}
-		// final sweep: every name looked up twice, in-creation queried
-		for _, name := range d.names {
-			tr.GetSingleton(name, true)
-			tr.IsSingletonCurrentlyInCreation(name)
-			tr.GetSingleton(name, false)
-		}
-	}()
+	diverged := d.runProgram(tr)
 	ev := tr.Events()
 	if diverged != nil {
 		c.Fail("", "driven history exceeded the step budget: "+diverged.Error(), map[string]any{"program": d.program})
 		return
 	}
 	p.judge(c, ev, "driven", map[string]any{"program": d.program})
+}
+
+// drivenSideBySide: several clients (goroutines) drive ONE registry at the same time, each over names of its
+// own (lazy components first looked up from several request handlers after the start): every client's
+// history obeys the protocol exactly as if it were alone.
+func (p c04) drivenSideBySide(c *core.Ctx) {
+	inner := support.DefaultSingletonComponentRegistry()
+	nG := 2 + c.Rng.Intn(7)
+	type client struct {
+		d        *driver
+		tr       *mon.RegistryTracer
+		diverged *mon.Divergence
+	}
+	clients := make([]*client, nG)
+	for g := range clients {
+		tr := mon.NewRegistryTracer(inner, 20000)
+		d := &driver{rng: rand.New(rand.NewSource(c.Rng.Int63())), reg: tr, hasFac: map[string]bool{}, metas: map[string]*component_definition.Meta{}, maxOps: 60}
+		for i := 0; i < 2+c.Rng.Intn(7); i++ {
+			d.names = append(d.names, fmt.Sprintf("g%dn%d", g, i))
+		}
+		clients[g] = &client{d: d, tr: tr}
+	}
+	var wg sync.WaitGroup
+	start := make(chan struct{})
+	for _, cl := range clients {
+		wg.Add(1)
+		go func(cl *client) {
+			defer wg.Done()
+			<-start
+			for round := 0; round < 4 && cl.diverged == nil; round++ {
+				cl.diverged = cl.d.runProgram(cl.tr)
+			}
+		}(cl)
+	}
+	close(start)
+	wg.Wait()
+	c.Count("side_by_side_clients", nG)
+	for g, cl := range clients {
+		if cl.diverged != nil {
+			c.Fail("", fmt.Sprintf("client %d of %d driving one registry side by side exceeded the step budget: %s", g, nG, cl.diverged.Error()), map[string]any{"program": cl.d.program})
+			return
+		}
+		p.judge(c, cl.tr.Events(), "driven", map[string]any{"program": cl.d.program, "clients_side_by_side": nG, "client": g})
+		if c.Failed() {
+			return
+		}
+	}
 }
 
 func (p c04) judge(c *core.Ctx, ev []mon.TraceEv, source string, detail map[string]any) {
